@@ -10,7 +10,7 @@ lines:
 extra (fuzz): the first offending call, with the exception class or the validity predicate that failed.
 """
 from harness.common import *
-import io, inspect, random as _random, copy as _copy, array as _array
+import io, inspect, random as _random, copy as _copy, array as _array, os
 
 FUNCTIONAL = False
 LEVEL_TEXT = ("Lean theorems: the asserts (and the division) in the private helpers _absolute_slice, _truncateleft/right, _insert, "
@@ -144,7 +144,15 @@ def _arg(r, name, obj, n):
     if nm == "sequence":
         return [_bitsy(r, obj) for _ in range(r.choice([0, 1, 3]))]
     if nm in ("f",):
-        return io.BytesIO()
+        # file objects that accept the bytes, and ones on which the write / read fails (closed, read-only, text mode)
+        k = r.random()
+        if k < 0.55:
+            return io.BytesIO(bytes(r.getrandbits(8) for _ in range(r.choice([0, 0, 1, 3, 8]))))
+        if k < 0.7:
+            f = io.BytesIO(); f.close(); return f
+        if k < 0.85:
+            return open(os.devnull, "rb")
+        return io.StringIO()
     if nm == "stream":
         return io.StringIO()
     if nm == "s":
@@ -183,7 +191,31 @@ def _callables(obj):
     names += [d for d in DUNDERS if hasattr(cls, d)]
     if isinstance(obj, (BitArray, bitstring.Array)):
         names += [d for d in MUT_DUNDERS if hasattr(cls, d)]
+    if isinstance(obj, bitstring.Array):
+        names += [d for d in ARRAY_DUNDERS if hasattr(cls, d)]
     return sorted(set(names))
+
+
+ARRAY_DUNDERS = ["__sub__", "__rsub__", "__floordiv__", "__truediv__", "__mod__", "__neg__", "__abs__", "__isub__", "__ifloordiv__",
+                 "__itruediv__", "__imod__", "__gt__", "__le__", "__rshift__", "__lshift__", "__irshift__", "__ilshift__"]
+
+
+def _array_operand(r, obj):
+    """right operand of an Array operator: scalars (zero included), and Arrays of the same / another length and dtype whose
+    data contains zeros"""
+    k = r.random()
+    if k < 0.45:
+        return r.choice([3, -1, 0, 2.5, 0.0, "x", None, [1], Bits("0b1"), 10 ** 30, float("inf"), float("nan")])
+    n = len(obj) if k < 0.85 else r.choice([0, 1, len(obj) + 1])
+    dt = r.choice([obj.dtype, obj.dtype, "u8", "i16", "float32", "float16", "bool"])
+    try:
+        other = bitstring.Array(dt)
+        other.data = BitArray(length=n * other.itemsize)            # all items zero
+        if n and r.random() < 0.6:
+            other.data.overwrite(BitArray(bin="".join(r.choice("01") for _ in range(other.itemsize))), 0)   # first item random
+        return other
+    except Exception:                                              # noqa: BLE001
+        return 0
 
 
 def _valid(obj, snap):
@@ -283,6 +315,10 @@ def _fuzz(target, seed, steps, lsb0):
                     elif name in ("__lshift__", "__rshift__", "__ilshift__", "__irshift__"):
                         args = [_ints(r, n) if r.random() < 0.9 else 0]
                         args = [0 if args[0] is None else args[0]]
+                    elif isinstance(obj, bitstring.Array) and (name in ARRAY_DUNDERS or name in (
+                            "__add__", "__radd__", "__mul__", "__rmul__", "__and__", "__or__", "__xor__", "__iadd__", "__imul__", "__iand__",
+                            "__ior__", "__ixor__", "__eq__", "__ne__", "__lt__", "__ge__")):
+                        args = [] if name in ("__neg__", "__abs__") else [_array_operand(r, obj)]
                     elif name in ("__add__", "__radd__", "__and__", "__or__", "__xor__", "__iadd__", "__iand__", "__ior__", "__ixor__", "__contains__",
                                   "__eq__", "__ne__", "__lt__", "__ge__"):
                         args = [_bitsy(r, obj) if r.random() < 0.85 else r.choice([3, None, 2.5, object()])]
